@@ -127,7 +127,7 @@ CHECKS['C04'] = (
     'E1-bfs', 'model_checking',
     'explicit-state enumeration of ALL statement histories (no state merging) on the real interpreter with warm caches '
     'vs. a fresh interpreter loaded with a copy of the pre-state (differential) + frame condition',
-    'Every sequence of up to 3 (quick) / 4 (thorough, reduced alphabet at depth 4) statements over an alphabet of 33 '
+    'Every sequence of up to 3 (quick) / 4 (thorough, reduced alphabet at depth 4) statements over an alphabet of 35 '
     'colliding texts (assignments, amend / amend-in-depth, sub-list producing verbs, function definitions and calls, '
     'repeated texts, module switches, dictionary literals, compiled expressions, a gradient of a literal). For every '
     'statement: interpreter A (caches warm) vs. fresh interpreter B loaded with a deep copy of A\'s pre-state; same '
@@ -146,15 +146,105 @@ CHECKS['C19'] = (
     'sub-agent from DESIGN.md.',
     'DESIGN.md §3 C19')
 
+
+CHECKS['C02'] = (
+    'E1-bfs', 'model_checking',
+    'complete product enumeration of adverb forms x verbs x operands (and all two-adverb chains) on the real '
+    'interpreter vs. the definitional expansion assembled from separately evaluated plain applications',
+    '16 adverb forms x a closed verb set (every arithmetic/comparison/join operator, the equivalent lambdas, '
+    'non-commutative and non-associative lambdas, projections, Python callables) x operands (atoms, strings, vectors of '
+    'length 0..5, matrices, nested lists, dictionaries) plus all two-adverb chains, evaluated as source text; the '
+    'expected value is the adverb definition of mc/ref/adverbs.py written out over plain applications that the '
+    'implementation evaluates separately (twin interpreter with the expression compiler off for lambdas).',
+    'Judged only where every plain application of the expansion lies in the reference domain of the verb and the '
+    'implementation agrees with the reference on it (C01 findings are not reported twice); expansions that do not '
+    'terminate within 50 steps are never executed. Built by a sub-agent from DESIGN.md.',
+    'DESIGN.md §3 C02')
+CHECKS['C03'] = (
+    'E1-bfs', 'model_checking',
+    'complete enumeration of function bodies x argument tuples x call forms, of projection fill plans, of fault '
+    'positions x call depths and of the truth universe on the real interpreter vs. textual substitution / pre-call '
+    'snapshot / fresh twin',
+    'Every expression tree up to the node bound over {x y z, literals, a global} and six operators, as a function, '
+    'called with every argument tuple through every call form (direct, via variable, @, as verb of each adverb, .f '
+    'recursion) and compared with the textually substituted body; every fill plan of dyad/triad projections in any '
+    'hole order; a raising callable at every sub-expression position inside 1-3 nested calls (variables, context depth '
+    'and follow-up programs must be as if the call had not happened); conditionals over the truth universe with '
+    'logging branches.',
+    'The oracle is the interpreter itself on the substituted text (no Klong semantics in the harness). The complete '
+    'product of 3-node bodies x all tuples x all forms is too large; the layers enumerated (each completely) are '
+    'listed in coverage.bounds. Built by a sub-agent from DESIGN.md.',
+    'DESIGN.md §3 C03')
+CHECKS['C05'] = (
+    'E1-bfs', 'model_checking',
+    'complete product enumeration of compilable expressions x evaluation positions x bindings x rebinding histories x '
+    'backends; subject interpreter vs. twin with klongpy.interpreter.compile_expr stubbed (differential, step by step)',
+    'All expressions of the compilable grammar up to the node bound, in every evaluation position (top level, function '
+    'body, lambda parameter, operand of a non-compilable verb), for all bindings of a closed universe of scalars, '
+    'vectors, matrices, nested and empty lists, with rebinding histories (Klong a::v and Python klong[a]=v, to other '
+    'types and shapes), on numpy and torch-cpu: after every evaluation the outcome must equal that of a twin whose '
+    'expression compiler is a counting stub returning None.',
+    'Interpreter pairs are reused with a checked reset (and a sub-product re-run on brand-new pairs must agree); each '
+    'failing case is reduced to its smallest failing sub-case. Known findings: float32 vs float64 intermediate '
+    'results on torch, integers beyond int64. Built by a sub-agent from DESIGN.md.',
+    'DESIGN.md §3 C05')
+CHECKS['C06'] = (
+    'E1-bfs', 'exploration',
+    'complete product enumeration of differentiable expression trees x grid points x gradient forms x backends vs. '
+    'forward-mode dual numbers (exact derivatives)',
+    'Every expression tree up to the node bound over the differentiable operations (arithmetic, powers, negation, '
+    'reductions, indexing, each, backend math functions), at every grid point of its smooth domain, through f:>p, '
+    'p\u2207f, (\u2207f)(p), p\u2202g, .jacobian, loss:>[w b], [w b]\u2202g on numpy (numeric) and torch (autograd); '
+    'each answer within the stated tolerance of the dual-number derivative and both backends within the looser one.',
+    'Nothing is decided between grid points; points where the inherent error of the method exceeds the tolerance '
+    '(conditioning bound computed from the reference alone) are not judged. Built by a sub-agent from DESIGN.md.',
+    'DESIGN.md §3 C06')
+CHECKS['C07'] = (
+    'E1-bfs', 'model_checking',
+    'exhaustive fault enumeration: the differentiated function fails at its k-th evaluation for every k, per gradient '
+    'form x parameter kind x body x backend, on a fresh real interpreter; typed state snapshots before/after',
+    'For every gradient / Jacobian form x parameter kind (float64 vector, int vector, scalar, matrix...) x body '
+    '(smooth, wrong shape, unknown name, string, instrumented probe) x backend, the probe raises at every possible '
+    'invocation index; afterwards the typed snapshot of all scopes, f applied to the point, the same gradient text '
+    'again and the gradient after rebinding f must equal those of a clean interpreter.',
+    'Snapshot compares Python type, dtype, shape, requires_grad and exact element values; functions by identity. '
+    'Built by a sub-agent from DESIGN.md.',
+    'DESIGN.md §3 C07')
+CHECKS['C08'] = (
+    'E1-bfs', 'exploration',
+    'complete product enumeration of numeric-core programs up to a node bound x operand bindings, evaluated under '
+    'backend=numpy and backend=torch (cpu); differential comparison of values and written text',
+    'Every program tree up to 2 (quick) / 3 (thorough, one representative per representation class at level 3) '
+    'operator nodes over the numeric core (atomic dyads, join/index/take/drop, negate/floor/reverse/each, over and '
+    'scan) with leaves bound to integer and real scalars, vectors and matrices: when both backends return, same shape, '
+    'same integer/real kind, elements equal to single-precision rounding and identical written text; programs of the '
+    'expression compiler grammar with conforming operands must be accepted by both.',
+    'Tolerance weakenings are listed in the evidence (cancellation, float32 range, discontinuous operators on operands '
+    'that already differ by rounding). Known findings: int64 overflow, float32 powers. Built by a sub-agent from '
+    'DESIGN.md.',
+    'DESIGN.md §3 C08')
+CHECKS['C12'] = (
+    'E1-bfs', 'exploration',
+    'complete enumeration of token strings up to a length bound and of single/double token edits of the .kg corpus '
+    'through the real parser, with a call-count budget, double parse and twin evaluation',
+    'Every concatenation of <= 2 (quick) / <= 3 (thorough) tokens of a 54-token alphabet covering every lexeme class, '
+    'in the default module and inside a module; every single token edit of every corpus line (thorough: double edits '
+    'of one representative per token skeleton); generated long inputs. Per case: Python-level calls counted against '
+    '200*(n+2)^2 under a watchdog; second parse must end the same way with a structurally identical tree; the first '
+    'tree must be unchanged; both trees evaluate to the same outcome in twin interpreters.',
+    'Texts naming system functions are parsed but not evaluated. Built by a sub-agent from DESIGN.md.',
+    'DESIGN.md §3 C12')
+
 NOT_YET ='check not built yet in this session (work in progress; see DESIGN.md for the planned exploration)'
 
 ALL = ['C%02d' % i for i in range(1, 21)]
+PENDING = {'C05', 'C06', 'C08'}     # built; triage of the remaining violations on the unchanged tree not finished
 
 
 def main():
     checks = []
     for pid in ALL:
-        if pid not in CHECKS:
+        if pid not in CHECKS or pid in PENDING:
             continue
         engine, cat, tech, text, note, ref = CHECKS[pid]
         checks.append({
@@ -181,20 +271,20 @@ def main():
             'add_only': True,
         },
         'engines': [
-            {'name': 'E1-bfs', 'path': 'mc/bfs.py', 'serves_properties': [p for p, c in CHECKS.items() if c[0] == 'E1-bfs'],
+            {'name': 'E1-bfs', 'path': 'mc/bfs.py', 'serves_properties': [p for p, c in CHECKS.items() if p not in PENDING and c[0] == 'E1-bfs'],
              'kind_free_text': 'explicit-state search over the real transition function (history = state), layered BFS, '
                                'canonical-state merging, 16-way fan-out'},
-            {'name': 'E2-sched', 'path': 'mc/sched.py', 'serves_properties': [p for p, c in CHECKS.items() if c[0] == 'E2-sched'],
+            {'name': 'E2-sched', 'path': 'mc/sched.py', 'serves_properties': [p for p, c in CHECKS.items() if p not in PENDING and c[0] == 'E2-sched'],
              'kind_free_text': 'controlled (baton) scheduler for real threads, preemption-bounded stateless DFS with '
                                'prefix replay; deadlock / livelock verdicts; divergence on replay is a harness error'},
-            {'name': 'E3-vloop', 'path': 'mc/vloop.py', 'serves_properties': [p for p, c in CHECKS.items() if c[0] == 'E3-vloop'],
+            {'name': 'E3-vloop', 'path': 'mc/vloop.py', 'serves_properties': [p for p, c in CHECKS.items() if p not in PENDING and c[0] == 'E3-vloop'],
              'kind_free_text': 'virtual-time asyncio event loop; environment answers (dispatch latency, stream '
                                'fragmentation, faults) enumerated with a deviation bound'},
-            {'name': 'E4-crash', 'path': 'mc/props/c17_crash.py', 'serves_properties': [p for p, c in CHECKS.items() if c[0] == 'E4-crash'],
+            {'name': 'E4-crash', 'path': 'mc/props/c17_crash.py', 'serves_properties': [p for p, c in CHECKS.items() if p not in PENDING and c[0] == 'E4-crash'],
              'kind_free_text': 'crash-image enumeration over an in-memory file system with an operation log'},
         ],
         'checks': checks,
-        'not_applicable': [{'property_id': p, 'reason': NOT_YET} for p in ALL if p not in CHECKS],
+        'not_applicable': [{'property_id': p, 'reason': NOT_YET} for p in ALL if p not in CHECKS or p in PENDING],
         'notes': 'Technique family: model checking (bounded exhaustive exploration of the real implementation). '
                  'Known genuine defects that are not repaired are listed in known_findings.json.',
     }
